@@ -20,7 +20,7 @@ func init() {
 		Plan: func(tier string, seed int64) []Batch {
 			var bs []Batch
 			bs = append(bs, splitBatches("exh", 9, false, 2, map[string]string{"mode": "exh"})...)
-			n := 4
+			n := 7
 			if tier == "thorough" {
 				n = 14
 			}
@@ -323,7 +323,7 @@ func runC11(c *Ctx) {
 	switch c.Arg("mode", "") {
 	case "exh":
 		// all strings over {a, ' ', '.'} of the given lengths at SplitLen 13, each through one method (rotating)
-		lo, hi := 14, c.Pick(14, 16)
+		lo, hi := 14, c.Pick(15, 17)
 		cs := c11Open(c, 13)
 		if cs == nil {
 			return
@@ -355,7 +355,7 @@ func runC11(c *Ctx) {
 		cs.close(c)
 		c.R.Exhaustive[fmt.Sprintf("all texts over {a,space,.} of length %d..%d at SplitLen 13", lo, hi)] = c.Only == ""
 	case "prng":
-		total := c.Pick(160_000, 6_000_000)
+		total := c.Pick(600_000, 12_000_000)
 		per := total / parts
 		var cs *c11Sess
 		cur := -999
